@@ -62,6 +62,7 @@ impl Check for C09 {
         // cached bounds, two-step operations on one cell), the map, sponge sequences and base64
         all.extend(crate::ops_ng::ng_ops());
         all.push("map.seq".into());
+        all.extend(crate::ops_vec::vec_ops());
         all.push("sp.poseidon".into());
         all.extend(crate::ops_parse::B64_OPS.iter().map(|s| s.to_string()));
         let mut op = all[(idx as usize) % all.len()].clone();
@@ -88,7 +89,7 @@ impl Check for C09 {
         }
         // (the real pipeline goes through the standard library's relation wrapper; operations
         //  that run in circuits of their own are covered by the structure monitor only)
-        let own_circuit = ["ff.c25519", "ng.", "sp."].iter().any(|p| s.inner.case.op.starts_with(p));
+        let own_circuit = ["ff.c25519", "ng.", "sp.", "vec."].iter().any(|p| s.inner.case.op.starts_with(p));
         if s.real && !own_circuit && ops::expected_admissible(&s.inner.case) {
             return real_pipeline(&s.inner.case, st);
         }
